@@ -1036,7 +1036,12 @@ fn run_typed<R: Raw>(scn: &Scenario, opts: &RunOpts) -> Outcome {
             }
         };
         if matches!(res, Res::Panic(_) | Res::Abort(_)) {
-            dead = true;
+            // (`resume_after_setup_panic`: the caller catches a panic raised inside setup — an
+            // injected sampler failure that setup unwraps — and goes on using the planner)
+            let resume = matches!(res, Res::Panic(_)) && matches!(call, CallSpec::Setup { .. }) && scn.param("resume_after_setup_panic") == Some(1.0);
+            if !resume {
+                dead = true;
+            }
         }
         // An injected user panic was caught by the caller, who goes on using the planner — but only
         // where that does not make the run depend on OS entropy (the interrupted call had taken
